@@ -87,6 +87,9 @@ def rule_wrappers(ctx: Ctx) -> None:
 
 
 KNOCKOUTS = [
+    Knockout("measure-destabilizer-copied-before-elimination", "graphiq/backends/stabilizer/functions/clifford.py",
+             lambda src: sub_nth("        # probabilistic outcome\n", "        # probabilistic outcome\n        table = tableau.table\n        table[x_p - n_qubits] = table[x_p]\n", 0)(
+                 sub_once("        # set x_p - n row equal to x_p row\n        table[x_p - n_qubits] = table[x_p]\n", "")(src)), "measure.indices", "before the loop"),
     Knockout("remove-qubit-pivot-overwritten", "graphiq/backends/stabilizer/functions/clifford.py", sub_once("                    omit_index,\n                    row,\n                )", "                    row,\n                    omit_index,\n                )"), "own.rowops", "pivot `omit_index`"),
     Knockout("mixture-trace-out-size-read-per-branch", "graphiq/backends/stabilizer/state.py", sub_once("                    keep=keep,\n                    dims=n_qubits * [2],\n", "                    keep=[q for q in range(self.n_qubits) if q not in qubit_positions],\n                    dims=n_qubits * [2],\n"), "size.stale-per-branch", "trace_out_qubits", on_fixed_only=True),
     Knockout("reset-y-minus-uses-phase-dagger", CLIFF, sub_nth("    new_tableau = hadamard_gate(new_tableau, qubit_position)\n    new_tableau = phase_gate(new_tableau, qubit_position)\n    return new_tableau", "    new_tableau = hadamard_gate(new_tableau, qubit_position)\n    if intended_state == 0:\n        new_tableau = phase_gate(new_tableau, qubit_position)\n    else:\n        new_tableau = phase_dagger_gate(new_tableau, qubit_position)\n    return new_tableau", 0), "reset.basis", "reset_y"),
